@@ -53,7 +53,7 @@ theorem toDdAssign_Er (cfg : Config) (cx : Cx) (lo hi : Nat) (op : String) (left
     obtain ⟨c1, P⟩ := hP
     dsimp only at c1 P hnt2 ⊢
     -- for every environment: the context in which the sum is rewritten
-    have key : ∀ target'', BRg target target'' → ∀ σ, cx.ext σ → ∃ T Δt, erase σ target'' = (T, Δt ++ σ) ∧ Sim T left ∧
+    have key : ∀ target'', BRg target target'' → ∀ σ, cx.ext σ → ∃ T Δt, erase σ target'' = (T, Δt ++ σ) ∧ ESim T left ∧
         WinU lo hi s.counter s1.counter Δt ∧
         let cx' : Cx := ⟨fun k => cx.bad k ∨ (s.counter ≤ k ∧ k < s1.counter), Δt ++ σ⟩
         HypW cx' hi s1 ∧ Er cx' lo hi operand eo ∧ Er cx' lo hi (assignRhs r') r := by
